@@ -23,9 +23,9 @@ def build_seq(ctx):
     return ctx.compile('hk-shm', 'ht_seq', ['ht_seq.c'], instr=False)
 
 
-TWO = ['resize_vs_find_remove', 'resize_vs_insert_find', 'migrate_vs_remove_old', 'two_old_tables_emptied']
+TWO = ['resize_vs_find_remove', 'resize_vs_insert_find', 'migrate_vs_remove_old', 'two_old_tables_emptied', 'inserts_meet_in_new_bucket']
 TWO_BIG = ['double_overflow', 'find_or_insert_same_key']
-THREE = ['migrate_migrate_remove', 'find_or_insert_vs_remove', 'walk_old_tables_during_unlink', 'design_3threads']
+THREE = ['migrate_migrate_remove', 'find_or_insert_vs_remove', 'walk_old_tables_during_unlink', 'design_3threads', 'inserts_meet_in_new_bucket_3t']
 
 
 def conc(ctx, exe, names, bound, deadline, label):
